@@ -2,6 +2,7 @@ import Fabio.Driver.Proto
 import Fabio.Model.C15
 import Fabio.Model.C15Cmd
 import Fabio.Model.C15Listen
+import Fabio.Model.C15Slice
 import Fabio.Props.C15
 import Fabio.Generated.C15
 namespace Fabio.Driver.C15
@@ -444,7 +445,64 @@ def listenH : Handler := fun inp impl => do
   let nontrivial := cs.contains ';' || cs.contains ','
   return ({ model := mj, agree := agree, spec := spec, nontrivial := nontrivial, tag := tag } : Verdict).toJson
 
+/-! ### c15.slices -/
+
+def joinWith (sep : Str) : List Str → Str
+  | [] => []
+  | [a] => a
+  | a :: t => a ++ sep ++ joinWith sep t
+
+def slicesH : Handler := fun inp impl => do
+  let isFloat ← inp.getObjValAs? Bool "float"
+  let dflt ← strArr (← inp.getObjVal? "dflt")
+  let sets ← strArr (← inp.getObjVal? "sets")
+  if (impl.getObjVal? "harness_error").toOption.isSome then
+    return ({ model := Json.null, agree := true, spec := true, nontrivial := false, tag := "harness-skip" } : Verdict).toJson
+  if isPanicJson impl then
+    return ({ model := Json.null, agree := false, spec := false, nontrivial := true, tag := "panic" } : Verdict).toJson
+  let value ← impl.getObjValAs? String "value"
+  let errAt ← impl.getObjValAs? Int "err_at"
+  let backing ← strArr (← impl.getObjVal? "backing")
+  let before ← strArr (← impl.getObjVal? "before")
+  let fieldsJ ← (← impl.getObjVal? "fields").getArr?
+  let tab : List (Str × Bool × Str) := fieldsJ.toList.filterMap (fun x =>
+    match x.getArr? with
+    | .ok #[f, ok, c] => match f.getStr?, ok.getBool?, c.getStr? with
+      | .ok f, .ok ok, .ok c => some (S f, ok, S c)
+      | _, _, _ => none
+    | _ => none)
+  let parse : Str → Option Str :=
+    if isFloat then fun f => match tab.find? (fun r => r.1 == f) with
+      | some (_, true, c) => some c
+      | _ => none
+    else some
+  let sep : Str := if isFloat then [','] else [Char.ofNat 0]
+  -- the model: the store holds the default's array; the variable starts as the default slice
+  let h0 : Store Str := [before.map S]
+  let v0 : SliceH := { arr := 0, len := dflt.length, cap := before.length }
+  let (hN, vN, mErr, _) := sets.foldl (fun (acc : Store Str × SliceH × Int × Int) s =>
+      let (h, _, e, i) := acc
+      let r := sliceSet ([] : Str) (fun n => n) parse h (S s)
+      (r.1, r.2.1, (if !r.2.2 && e < 0 then i else e), i + 1)) (h0, v0, (-1 : Int), (0 : Int))
+  let mvalue := joinWith sep (hN.read vN)
+  let mbacking := (hN[0]?).getD []
+  let mj := Json.mkObj [("value", J mvalue), ("err_at", mErr), ("backing", Json.arr (mbacking.map J).toArray)]
+  let agree := (sets.isEmpty || S value == mvalue) && errAt == mErr && backing.map S == mbacking
+  -- specification: the default's array is what it was, and the value is a function of the last string
+  let untouched := backing == before
+  let valueOK := match sets.getLast? with
+    | none => true
+    | some s => S value == joinWith sep (setValue parse (listFields (S s)))
+  let spec := untouched && valueOK
+  let tag :=
+    if !untouched then "default-array-overwritten"
+    else if !valueOK then "value-not-a-function-of-the-string"
+    else if errAt ≥ 0 then "element-does-not-parse"
+    else s!"{if isFloat then "float" else "string"}-sets{sets.length}"
+  let nontrivial := !sets.isEmpty && !dflt.isEmpty
+  return ({ model := mj, agree := agree, spec := spec, nontrivial := nontrivial, tag := tag } : Verdict).toJson
+
 def streams : List (String × Handler) :=
   [("c15.flagtable", flagtableH), ("c15.sources", sourcesH), ("c15.kvslice", kvsliceH), ("c15.robust", robustH),
-   ("c15.cmdline", cmdlineH), ("c15.listen", listenH)]
+   ("c15.cmdline", cmdlineH), ("c15.listen", listenH), ("c15.slices", slicesH)]
 end Fabio.Driver.C15
